@@ -39,7 +39,7 @@ func genLR(r *rand.Rand, indirect bool) *gast.Grammar {
 					out = append(out, gast.AndC(nid(), mon.Spec{B: pick(r, 0, 0, 4)}))
 				case 1:
 					if useState {
-						out = append(out, gast.St(nid(), mon.Spec{S: 1 + r.Intn(7), E: pick(r, 0, 0, 1)}))
+						out = append(out, gast.St(nid(), mon.Spec{S: 1 + r.Intn(31), E: pick(r, 0, 0, 1)}))
 					}
 				case 2:
 					out = append(out, gast.NotE(gast.L("!")))
@@ -386,6 +386,12 @@ func c08Strata() []*gast.Grammar {
 			gast.S(gast.NotE(gast.S(gast.Ref("E1"), gast.L(";"))), gast.Lab("a", gast.Ref("E1")), gast.Star(gast.Dot())), gast.S(gast.Ref("E1"), gast.L(";")))),
 			r("E1", gast.C(act(gast.S(gast.Lab("a", gast.Ref("E1")), gast.L("+"), gast.Lab("b", gast.Ref("At"))), 2, mon.Spec{}), gast.Ref("At"))),
 			r("At", act(gast.Plus(gast.Cl(&gast.ClassSpec{Ranges: [][2]rune{{'0', '9'}}})), 3, mon.Spec{R: 2}))),
+		// a key of the state store deleted (and others set) by state blocks on the growing path: the
+		// snapshot restored when the last, non-extending attempt is rolled back is the store as the
+		// last kept step left it, not an older one with the deleted key still present
+		mk(r("S", gast.S(gast.St(3, mon.Spec{S: 8}), gast.St(4, mon.Spec{S: 8}), gast.Lab("a", gast.Ref("E1")), gast.St(9, mon.Spec{S: 1}), gast.Star(gast.Dot()))),
+			r("E1", gast.C(gast.S(gast.Ref("E1"), gast.L(","), gast.St(2, mon.Spec{S: 17}), gast.Ref("At")), gast.S(gast.Ref("E1"), gast.L(";"), gast.St(5, mon.Spec{S: 24}), gast.Ref("At")), gast.Ref("At"))),
+			r("At", act(gast.Plus(gast.Cl(&gast.ClassSpec{Ranges: [][2]rune{{'0', '9'}}})), 6, mon.Spec{R: 2}))),
 	}
 }
 
